@@ -212,10 +212,42 @@ func (p *pkgInfo) bigNewInt(e ast.Expr) (int64, bool) {
 type sym string
 
 type bigEnv struct {
-	p    *pkgInfo
-	vals map[string]sym // variable (pointer identity) -> current value
-	o    *out
-	ctx  string
+	p     *pkgInfo
+	vals  map[string]sym    // variable (pointer identity) -> current value
+	alias map[string]string // local pointer variable -> the variable it points to (x := new(big.Int).Mul(a, b))
+	o     *out
+	ctx   string
+}
+
+func (b *bigEnv) resolve(name string) string {
+	for i := 0; i < 8; i++ {
+		t, ok := b.alias[name]
+		if !ok {
+			break
+		}
+		name = t
+	}
+	return name
+}
+
+func (b *bigEnv) fresh(v sym) string {
+	name := fmt.Sprintf("$tmp%d", len(b.vals))
+	b.vals[name] = v
+	return name
+}
+
+// isNewBigInt recognises new(big.Int)
+func isNewBigInt(c *ast.CallExpr) bool {
+	f, ok := c.Fun.(*ast.Ident)
+	if !ok || f.Name != "new" || len(c.Args) != 1 {
+		return false
+	}
+	s, ok := c.Args[0].(*ast.SelectorExpr)
+	if !ok || s.Sel.Name != "Int" {
+		return false
+	}
+	x, ok := s.X.(*ast.Ident)
+	return ok && x.Name == "big"
 }
 
 func (b *bigEnv) get(name string) sym {
@@ -241,7 +273,7 @@ func leanInt(n int64) string {
 func (b *bigEnv) ptr(e ast.Expr) string {
 	switch v := e.(type) {
 	case *ast.Ident:
-		return v.Name
+		return b.resolve(v.Name)
 	case *ast.ParenExpr:
 		return b.ptr(v.X)
 	case *ast.UnaryExpr:
@@ -272,20 +304,21 @@ func (b *bigEnv) lval(e ast.Expr) string {
 
 // call executes x.Op(args...) and returns the variable x (math/big methods return the receiver).
 func (b *bigEnv) call(c *ast.CallExpr) string {
+	if isNewBigInt(c) {
+		return b.fresh(sym("0"))
+	}
 	s, ok := c.Fun.(*ast.SelectorExpr)
 	if !ok {
 		b.o.problem("%s: unsupported call", b.ctx)
 		return "?"
 	}
-	// new(big.Int) / big.NewInt(k)
+	// big.NewInt(k)
 	if x, ok := s.X.(*ast.Ident); ok && x.Name == "big" && s.Sel.Name == "NewInt" {
 		n, ok := b.p.evalConst(c.Args[0])
 		if !ok {
 			b.o.problem("%s: non-constant big.NewInt", b.ctx)
 		}
-		name := fmt.Sprintf("$tmp%d", len(b.vals))
-		b.vals[name] = sym(leanInt(n))
-		return name
+		return b.fresh(sym(leanInt(n)))
 	}
 	recv := b.ptr(s.X)
 	var args []string
@@ -343,6 +376,23 @@ func (b *bigEnv) exec(body *ast.BlockStmt) (ret string) {
 					if u, ok := s.Rhs[0].(*ast.UnaryExpr); ok && u.Op == token.AND {
 						if cl, ok := u.X.(*ast.CompositeLit); ok && len(cl.Elts) == 0 {
 							b.vals[id.Name+".incr2"] = sym("0")
+							continue
+						}
+					}
+				}
+			}
+			// x := <expression of type *big.Int> (a fresh temporary, the result of a chain): x names that variable
+			if len(s.Lhs) == 1 && len(s.Rhs) == 1 && (s.Tok == token.DEFINE || s.Tok == token.ASSIGN) {
+				if id, ok := s.Lhs[0].(*ast.Ident); ok {
+					switch s.Rhs[0].(type) {
+					case *ast.CallExpr, *ast.UnaryExpr, *ast.Ident:
+						before := len(b.o.problems)
+						t := b.ptr(s.Rhs[0])
+						if len(b.o.problems) == before && t != "?" && t != id.Name {
+							if b.alias == nil {
+								b.alias = map[string]string{}
+							}
+							b.alias[id.Name] = t
 							continue
 						}
 					}
